@@ -274,14 +274,19 @@ def pairSearch (depth : Nat) (st : EncChan) (ls rs : List Int) : PairChoice :=
   { bestRes := ms.best, numU := if t8.1 < t4.1 then 8 else 4, numV := if t8.2.1 < t4.2.1 then 8 else 4,
     est := (if t8.1 < t4.1 then t8.1 else t4.1) + (if t8.2.1 < t4.2.1 then t8.2.1 else t4.2.1), rowsU := t8.2.2.1, rowsV := t8.2.2.2 }
 
+/-- EncodeStereo's size estimate and the size of the escape element -/
+def pairMinBits (depth frameSize n est : Nat) : Nat :=
+  est + 64 + (if n ≠ frameSize then 32 else 0) + (if bytesShiftedOf depth ≠ 0 then n * (8 * bytesShiftedOf depth) * 2 else 0)
+def pairEscapeBits (depth frameSize n : Nat) : Nat := n * depth * 2 + (if n ≠ frameSize then 32 else 0) + 16
+
 /-- EncodeStereo -/
 def encPair (depth frameSize : Nat) (st : EncChan) (ls rs : List Int) : Bits × EncChan :=
   let n := ls.length
   let bs := bytesShiftedOf depth
   let chanBits := depth - 8 * bs + 1
   let c := pairSearch depth st ls rs
-  let minBits := c.est + 64 + (if n ≠ frameSize then 32 else 0) + (if bs ≠ 0 then n * (8 * bs) * 2 else 0)
-  let escapeBits := n * depth * 2 + (if n ≠ frameSize then 32 else 0) + 16
+  let minBits := pairMinBits depth frameSize n c.est
+  let escapeBits := pairEscapeBits depth frameSize n
   let escBits := encPairEsc Rules.current depth n ls rs ([], [])
   if minBits ≥ escapeBits then (escBits, { coefsU := c.rowsU, coefsV := c.rowsV, lastMixRes := c.bestRes })
   else
@@ -299,17 +304,17 @@ def encElems (depth frameSize : Nat) (frames : List (List Int)) : List Nat → N
   | [], _, _, _, st => ([], st)
   | t :: ts, c, mono, stereo, st =>
     if t = ID_CPE then
-      let (b, s1) := encPair depth frameSize (st.getD c {}) (chanOf frames c) (chanOf frames (c + 1))
-      let (rest, st2) := encElems depth frameSize frames ts (c + 2) mono (stereo + 1) (st.set c s1)
-      (bitsOf ID_CPE 3 ++ bitsOf stereo 4 ++ b ++ rest, st2)
+      let e := encPair depth frameSize (st.getD c {}) (chanOf frames c) (chanOf frames (c + 1))
+      let r := encElems depth frameSize frames ts (c + 2) mono (stereo + 1) (st.set c e.2)
+      (bitsOf ID_CPE 3 ++ (bitsOf stereo 4 ++ (e.1 ++ r.1)), r.2)
     else
-      let (b, s1) := encMono depth frameSize (st.getD c {}) (chanOf frames c)
-      let (rest, st2) := encElems depth frameSize frames ts (c + 1) (mono + 1) stereo (st.set c s1)
-      (bitsOf t 3 ++ bitsOf mono 4 ++ b ++ rest, st2)
+      let e := encMono depth frameSize (st.getD c {}) (chanOf frames c)
+      let r := encElems depth frameSize frames ts (c + 1) (mono + 1) stereo (st.set c e.2)
+      (bitsOf t 3 ++ (bitsOf mono 4 ++ (e.1 ++ r.1)), r.2)
 
 /-- `alac_encode`: the packet and the encoder state afterwards -/
 def encode (cfg : Config) (st : EncState) (frames : List (List Int)) : List Byte × EncState :=
-  let (bits, st1) := encElems cfg.bitDepth frameLen frames (layout cfg.numChannels) 0 0 0 st
-  (pack (bits ++ bitsOf ID_END 3), st1)
+  let r := encElems cfg.bitDepth frameLen frames (layout cfg.numChannels) 0 0 0 st
+  (pack (r.1 ++ bitsOf ID_END 3), r.2)
 
 end Sf.AlacCore
